@@ -71,13 +71,36 @@ func ruleIndexCondConjunctive(c *eng.Ctx) {
 			ord++
 			passed := map[string]bool{}
 			opaque := false
-			if cs.Call.Ellipsis.IsValid() {
+			args := cs.Call.Args[min(2, len(cs.Call.Args)):]
+			if cs.Call.Ellipsis.IsValid() && len(args) == 1 {
+				// skip list held in a local: skip := []string{opNot, opOr}; TraverseProperties(…, skip...)
 				opaque = true
+				if o := eng.ObjOf(info, args[0]); o != nil {
+					defs := 0
+					var lit *ast.CompositeLit
+					ast.Inspect(fi.Decl.Body, func(x ast.Node) bool {
+						if as, ok := x.(*ast.AssignStmt); ok {
+							for i, l := range as.Lhs {
+								if eng.ObjOf(info, l) == o {
+									defs++
+									if len(as.Rhs) == len(as.Lhs) {
+										lit, _ = ast.Unparen(as.Rhs[i]).(*ast.CompositeLit)
+									}
+								}
+							}
+						}
+						return true
+					})
+					if defs == 1 && lit != nil {
+						opaque = false
+						args = lit.Elts
+					}
+				}
 			}
-			for _, a := range cs.Call.Args[min(2, len(cs.Call.Args)):] {
+			for _, a := range args {
 				if s, ok := eng.ConstString(info, a); ok {
 					passed[s] = true
-				} else {
+				} else if !cs.Call.Ellipsis.IsValid() || len(args) != 1 {
 					opaque = true
 				}
 			}
